@@ -1812,6 +1812,15 @@ def register_all(M):
                 return some(new_ref(e[1]))
         return none()
     M.add(MAP + r"::<.*>::get::<.*>", map_get)
+    def map_remove(c, m, a):
+        mp = deref(a[0])
+        for i, e in enumerate(mp.entries):
+            if c.decide(M.elem_eq(c, e[0], a[1])):
+                del mp.entries[i]
+                return some(e[1])
+        return none()
+    M.add(MAP + r"::<.*>::remove::<.*>", map_remove)
+
     def map_clear(c, m, a):
         deref(a[0]).entries[:] = []
         return UNIT
